@@ -69,6 +69,10 @@ class ConciliationMonitor(Monitor):
                   'unknown_start': {p.namespec for p in conflicts
                                     if any(p.info_map[i].get('start_monotonic', 0) == 0 and
                                            p.info_map[i].get('state') == 20 for i in p.running_identifiers)}}
+        # the start instants as they are when the strategy decides (a stopped copy may be started again by somebody
+        # else before the round closes)
+        record['spawn_t'] = {(n, ns): self.spawn_t.get((n, ns), 0.0) for ns, copies in record['conflicts'].items()
+                             for n in copies}
         # stops that were already in progress for a copy when the round begins
         record['open'] = {(r['namespec'], r['target_nick']) for r in self.tracker.open_stops
                           if r['sender'] == inst.nick and r['inc'] == inst.inc}
@@ -123,7 +127,7 @@ class ConciliationMonitor(Monitor):
         if strategy in ('STOP', 'RESTART', 'RUNNING_FAILURE'):
             return set(copies), set(copies)
         # SENICIDE keeps the most recently started copy, INFANTICIDE the oldest one
-        times = {n: self.spawn_t.get((n, namespec), 0.0) for n in copies}
+        times = {n: record['spawn_t'].get((n, namespec), 0.0) for n in copies}
         if strategy == 'SENICIDE':
             best = max(times.values())
         else:
